@@ -136,6 +136,8 @@ class Tables:
     def __init__(self):
         self.sq, self.log, self.exp, self.log1p, self.ipl, self.ib = {}, {}, {}, {}, {}, {}
         self.log10, self.ndtri, self.normpdf = {}, {}, {}
+        self.gammaln, self.betaln = {}, {}
+        self.ipl_exact = {}
 
     def note_message(self, m):
         """every sigma of a scalar NormalMessage may be squared by calc_natural_parameters"""
@@ -160,7 +162,9 @@ class Tables:
                 "log1p": sorted(self.log1p.items()), "ipl": sorted(self.ipl.items()),
                 "ib": [[k[0], k[1], v[0], v[1]] for k, v in sorted(self.ib.items())],
                 "log10": sorted(self.log10.items()), "ndtri": sorted(self.ndtri.items()),
-                "normpdf": sorted(self.normpdf.items())}
+                "normpdf": sorted(self.normpdf.items()), "gammaln": sorted(self.gammaln.items()),
+                "ipl_exact": [[k, v[0], v[1]] for k, v in sorted(self.ipl_exact.items())],
+                "betaln": [[k[0], k[1], v] for k, v in sorted(self.betaln.items())]}
 
 
 def evaluate(e, env, tabs):
@@ -216,6 +220,16 @@ def run_alg(c):
 
 
 # --------------------------------------------------------------------------- proj
+def exact_invpsilog(c):
+    """independent solution of digamma(x) - log(x) = c (bracketing root finder in log x, to machine precision)"""
+    from scipy import optimize
+    try:
+        la = optimize.brentq(lambda t: float(special.digamma(math.exp(t))) - t - c, -40.0, 40.0, xtol=1e-15, rtol=1e-15)
+        return math.exp(la)
+    except (ValueError, OverflowError):
+        return float("nan")
+
+
 def mirror_project(fam, scalar, X, LW, tabs):
     """Independent sequential re-computation of AbstractMessage.project for key derivation only.
     X, LW: n x d python floats.  Returns nothing; fills the oracle tables."""
@@ -268,6 +282,10 @@ def mirror_project(fam, scalar, X, LW, tabs):
             vals = np.atleast_1d(vals)
             for cc, v in zip(cs, vals):
                 tabs.ipl[hexf(cc)] = hexf(v)
+                ex = exact_invpsilog(cc)
+                # conditioning: an error of a few ulp of log(x) in digamma(x) - log(x) moves the root by that / (x |c'(x)|)
+                cond = 1.0 / (ex * abs(float(special.polygamma(1, ex)) - 1.0 / ex)) if ex == ex and ex > 0 else 1.0
+                tabs.ipl_exact[hexf(cc)] = [hexf(ex), hexf(1e-11 + 200 * 2.3e-16 * max(1.0, abs(math.log(ex)) if ex > 0 else 1.0) * cond)]
         except ValueError:
             pass
     if fam == "beta":
@@ -358,6 +376,55 @@ def integ(f, lo, hi, breaks):
     return tot
 
 
+def chain(stack, x):
+    """independent evaluation of a transform stack at x: (T x, log T'(x)), libraries only"""
+    from scipy.special import ndtri as sp_ndtri
+    x = np.asarray(x, dtype=float)
+    ld = np.zeros_like(x)
+    for t in reversed(stack):
+        if t[0] == "shift":
+            ld = ld - np.log(unhex(t[2]))
+            x = (x - unhex(t[1])) / unhex(t[2])
+        elif t[0] == "log":
+            ld = ld - np.log(x)
+            x = np.log(x)
+        elif t[0] == "exp":
+            ld = ld + x
+            x = np.exp(x)
+        elif t[0] == "log10":
+            ld = ld - np.log(x) - np.log(np.log(10.0))
+            x = np.log10(x)
+        elif t[0] == "phi":
+            y = sp_ndtri(x)
+            ld = ld - stats.norm.logpdf(y)
+            x = y
+    return x, ld
+
+
+def first_order_moments(stack, mean, var):
+    """the delta-method values TransformedMessage.mean / .variance are documented to return: the base mean pushed
+    through the inverse transforms, the variance divided by the squared slope of each transform at the new mean"""
+    from scipy.special import ndtr, ndtri as sp_ndtri
+    for t in stack:
+        if t[0] == "shift":
+            mean = mean * unhex(t[2]) + unhex(t[1])
+            d = 1 / unhex(t[2])
+        elif t[0] == "log":
+            mean = math.exp(mean)
+            d = 1 / mean
+        elif t[0] == "exp":
+            mean = math.log(mean)
+            d = math.exp(mean)
+        elif t[0] == "log10":
+            mean = 10.0 ** mean
+            d = 1 / mean / math.log(10.0)
+        elif t[0] == "phi":
+            mean = float(ndtr(mean))
+            d = 1 / float(stats.norm.pdf(sp_ndtri(mean)))
+        var = var / d / d
+    return mean, var
+
+
 def run_dens(c):
     m = build(c["msg"])
     out = {"desc": describe(m)}
@@ -391,6 +458,18 @@ def run_dens(c):
         out["variance"] = hexf(m.variance)
     except BaseException as ex:  # noqa
         out["mean_exc"] = exc_name(ex)
+    # pointwise: what logpdf reports vs the library density of the base at T x, and the log-determinant
+    stack = out["desc"]["t"]["stack"] if transformed else []
+    try:
+        ys, lds = chain(stack, np.array(xs))
+        out["lp_points"] = [hexf(m.logpdf(x)) for x in xs]
+        out["lp_base_at_Tx"] = [hexf(v) for v in dist.logpdf(ys)]
+        out["lp_logdet"] = [hexf(v) for v in lds]
+        if transformed:
+            pm, pv = first_order_moments(stack, float(dist.mean()), float(dist.var()))
+            out["first_order_mean"], out["first_order_var"] = hexf(pm), hexf(pv)
+    except BaseException as ex:  # noqa
+        out["lp_exc"] = exc_name(ex) + ": " + str(ex)[:200]
     if hasattr(m, "cdf"):
         try:
             f = dens_of("factor" if transformed else "pdf")
@@ -454,6 +533,9 @@ def run_det(c):
         out["logd"].append(hexf(logd))
         out["factor"].append(hexf(m.factor(x)))
         out["base_lp"].append(hexf(m.base_message.logpdf(y)))
+        cy, cld = chain(stack, x)
+        out.setdefault("lib_lp", []).append(hexf(dist.logpdf(float(cy))))
+        out.setdefault("lib_logd", []).append(hexf(float(cld)))
         # independent estimate of log T'(x) by a central difference of the transform itself
         h = 1e-6 * (min(x - lo, hi - x) if math.isfinite(lo) and math.isfinite(hi) else (x - lo if math.isfinite(lo) else max(1.0, abs(x))))
         d = (float(m._transform(x + h)) - float(m._transform(x - h))) / (2 * h)
@@ -516,7 +598,130 @@ def run_hist(c):
     return {"stages": stages}
 
 
+# --------------------------------------------------------------------------- lpdf
+def sq_of(x, scalar):
+    return float(x) ** 2 if scalar else float(x) * float(x)
+
+
+def mirror_logpdf(fam, scalar, x_scalar, elem, x, tabs):
+    """independent sequential re-computation of natural_logpdf for one element / one point: fills the tables"""
+    p = [float(v) for v in elem]
+    x = float(x)
+    if fam in ("normal", "natural"):
+        if fam == "normal":
+            if scalar:
+                tabs.add_sq(p[1])
+            prec = 1 / sq_of(p[1], scalar)
+            e1, e2 = p[0] * prec, -prec / 2
+        else:
+            e1, e2 = p
+        if scalar:
+            tabs.add_sq(e1)
+        if x_scalar:
+            tabs.add_sq(x)
+        tabs.add_log(-2.0 * e2)
+    elif fam == "gamma":
+        a, b = (p[0] - 1.0) + 1.0, -(-p[1])
+        tabs.gammaln[hexf(a)] = hexf(special.gammaln(a))
+        tabs.add_log(b)
+        tabs.add_log(x)
+    else:
+        tabs.betaln[(hexf(p[0]), hexf(p[1]))] = hexf(special.betaln(p[0], p[1]))
+        tabs.add_log(x)
+        tabs.add_log1p(-x)
+
+
+def run_lpdf(c):
+    fam, scalar = c["fam"], c["scalar"]
+    m = build(c["msg"])
+    transformed = isinstance(m, TransformedMessage)
+    b = m.base_message if transformed else m
+    rows = [[unhex(h) for h in row] for row in c["x"]]
+    if c["x_scalar"]:
+        x = rows[0][0]
+    elif c["batch"]:
+        x = np.array([r[0] for r in rows]) if scalar else np.array(rows)
+    else:
+        x = np.array(rows[0])
+    out = {"desc": describe(m)}
+    elems = out["desc"]["base"]["elems"] if transformed else out["desc"]["elems"]
+    n = len(elems)
+    stack = out["desc"]["t"]["stack"] if transformed else []
+
+    def flat(v):
+        a = np.asarray(v, dtype=float)
+        return [[hexf(z) for z in r] for r in a.reshape(len(rows), n)]
+
+    def lib():   # library density of each element at T x, and log T'(x)
+        lp, ld = [], []
+        for r in rows:
+            lr, dr = [], []
+            for j, xv in enumerate(r):
+                cls = type(b)
+                one = cls(*[unhex(h) for h in elems[j]])
+                y, d = chain(stack, xv)
+                lr.append(hexf(base_dist(one).logpdf(float(y))))
+                dr.append(hexf(float(d)))
+            lp.append(lr)
+            ld.append(dr)
+        return lp, ld
+
+    out["lib_lp"], out["lib_logd"] = lib()
+    for q in (["logpdf", "pdf"] + (["factor"] if transformed else [])):
+        try:
+            out[q] = flat(getattr(m, q)(x))
+        except BaseException as ex:  # noqa
+            out[q] = "exc:" + exc_name(ex) + ": " + str(ex)[:150]
+    if transformed:
+        try:
+            y, logd = m._transform_det(x)
+            out["tdet_y"], out["tdet_logd"] = flat(y), flat(logd * np.ones_like(np.asarray(x, dtype=float)))
+        except BaseException as ex:  # noqa
+            out["tdet_y"] = "exc:" + exc_name(ex) + ": " + str(ex)[:150]
+    tabs = Tables()
+    if not transformed:
+        for r in rows:
+            for j, xv in enumerate(r):
+                mirror_logpdf(fam, scalar, c["x_scalar"], [unhex(h) for h in elems[j]], xv, tabs)
+    out["tabs"] = tabs.dump()
+    return out
+
+
+# --------------------------------------------------------------------------- mixed shapes
+def run_mixedparam(c):
+    """one message whose parameters have different shapes (np.broadcast in __init__ accepts them)"""
+    cls = FAMS[c["fam"]]
+    args = [arr(p, len(p) == 1) for p in c["params"]]
+    n = max(len(p) for p in c["params"])
+    full = [np.array([unhex(h) for h in (p if len(p) == n else p * n)], dtype=float) for p in c["params"]]
+    x = np.array([unhex(h) for h in c["x"]], dtype=float)
+    out = {}
+    ref = cls(*full)
+    out["ref"] = {"nat": hexarr(ref.natural_parameters), "logpdf": hexarr(ref.logpdf(x)), "shape": list(ref.shape)}
+    try:
+        m = cls(*args)
+        out["shape"] = list(m.shape)
+    except BaseException as ex:  # noqa
+        out["ctor_exc"] = exc_name(ex) + ": " + str(ex)[:120]
+        return out
+    for q, f in (("nat", lambda: m.natural_parameters), ("logpdf", lambda: m.logpdf(x)),
+                 ("pow", lambda: (m ** 2.0).natural_parameters)):
+        try:
+            out[q] = hexarr(f())
+        except BaseException as ex:  # noqa
+            out[q] = "exc:" + exc_name(ex)
+    try:
+        out["ref"]["pow"] = hexarr((ref ** 2.0).natural_parameters)
+    except BaseException as ex:  # noqa
+        out["ref"]["pow"] = "exc:" + exc_name(ex)
+    return out
+
+
 def run_case(c):
+    if c["kind"] == "lpdf":
+        return run_lpdf(c)
+    if c["kind"] == "mixedparam":
+        return run_mixedparam(c)
     if c["kind"] == "hist":
         return run_hist(c)
     if c["kind"] == "det":
